@@ -157,6 +157,23 @@ def run(ctx: Ctx):
     ctx.ob("R10.4", f"{finsc.qual}: final pass starts the recursion at the task roots", finsc, ok,
            "task.finishScheduling() from finishScenario" if ok else "finishScenario no longer runs the children-first recursion over the tasks",
            key="R10.4|Project.finishScenario|recursion")
+    # the final roll-up runs for every scenario that was scheduled, complete or not
+    psched = repo.func("Project.schedule")
+    gp = cfg_of(psched)
+
+    def _with(name):
+        return [n for n in gp.nodes if n.ast is not None and n.kind in ("stmt", "if", "while") and any(
+            isinstance(c, ast.Call) and norm(c.func) == name for c in ast.walk(n.ast.test if isinstance(n.ast, (ast.If, ast.While)) else n.ast))]
+    sc_n, fi_n = _with("self.scheduleScenario"), _with("self.finishScenario")
+    if not sc_n or not fi_n:
+        raise AnchorMissing("Project.schedule: scheduleScenario / finishScenario calls not found")
+    pdm = gp.postdominators()
+    ok = fi_n[0].id in pdm.get(sc_n[0].id, ())
+    ctx.ob("R10.4", f"{psched.qual}: finishScenario post-dominates scheduleScenario", psched, ok,
+           "containers are closed by the final pass whatever scheduleScenario returned" if ok else
+           "a path from scheduleScenario skips finishScenario: when a leaf could not be placed the outer containers of a deep tree are "
+           "never rolled up although all their children are scheduled",
+           key="R10.4|Project.schedule|finish postdom")
     # ---------------------------------------------------------------- R10.2
     for fn, exp in ((upd, {"min_start": "child_start", "max_end": "child_end"}), (sc, {"n_start": "child_start", "n_end": "child_end"})):
         found = {}
@@ -208,8 +225,10 @@ def run(ctx: Ctx):
     ok = "loop" in kinds and "container" in kinds and kinds.index("loop") < kinds.index("container")
     ctx.ob("R10.4", f"{fin.qual}: children before the container {kinds}", fin, ok, "post-order: nested containers are summarised bottom-up" if ok else
            "final roll-up does not process children before their container", key="R10.4|finishScheduling|order")
+    from .c16 import scenario_default_rule
+    scenario_default_rule(ctx, "R10.6")
     ctx.floor("R10.1", 6)
     ctx.floor("R10.5", 4)
     ctx.floor("R10.2", 6)
     ctx.floor("R10.3", 2)
-    ctx.floor("R10.4", 8)
+    ctx.floor("R10.4", 9)
